@@ -358,6 +358,7 @@ theorem insert_spec {cap : Nat} {h h' : IFib K V} (inv : Inv cap h) (i : Int) (k
           -- the new node is appended or put in front
           have hnew : rootsIds [(⟨h.cells.size, 0, false, .nil⟩ : FN)] = [h.cells.size] := by
             simp [rootsIds, FN.ids, FT.ids]
+          unfold insertRoots at hroots
           split at hroots
           · rename_i hnil
             cases hroots
@@ -528,6 +529,40 @@ theorem set_self (m : Spec.Map K V) (i : Int) (a : Option (K × V)) (h : m i = a
   · rename_i hj; rw [hj, h]
   · rfl
 
+theorem decreaseKey_spec {cap : Nat} {h1 h' : IFib K V} {id : Nat} {key : K} {b : Bool}
+    (r1 : Reg cap (rootsIds h1.roots) h1.nodes h1.cells) (he : decreaseKey cmp h1 id key = .ok (h', b)) :
+    Reg cap (rootsIds h'.roots) h'.nodes h'.cells ∧ abs h' = abs h1 ∧ h'.n = h1.n ∧ b = true := by
+  unfold decreaseKey at he
+  split at he
+  · cases he
+  · split at he
+    · rename_i bcut _
+      split at he
+      · rename_i h2 hcut
+        have hh2 : Reg cap (rootsIds h2.roots) h2.nodes h2.cells ∧ abs h2 = abs h1 ∧ h2.n = h1.n := by
+          split at hcut
+          · obtain ⟨q1, q2, q3, _, _⟩ := cutAndCascade_spec r1 hcut
+            exact ⟨q1, q2, q3⟩
+          · cases hcut; exact ⟨r1, rfl, rfl⟩
+        obtain ⟨r2, habs2, hn2⟩ := hh2
+        unfold finishDecrease at he
+        split at he
+        · cases he
+        · split at he
+          · split at he
+            · cases he; exact ⟨r2, habs2, hn2, rfl⟩
+            · split at he
+              · rename_i roots' hrot
+                cases he
+                exact ⟨r2.perm (rootsIds_perm (rotateTo_perm _ _ _ hrot)).symm, habs2, hn2, rfl⟩
+              · cases he
+          · cases he
+          · cases he
+      · cases he
+      · cases he
+    · cases he
+    · cases he
+
 theorem changeKey_sim {eq : V → V → Bool} {cap : Nat} {h h' : IFib K V}
     (inv : Inv cap h) (i : Int) (key : K) (b : Bool) (he : h.changeKey cmp i key = .ok (h', b)) :
     Inv cap h' ∧ Spec.AdmitWeak cmp eq cap (abs h) (.changeKey i key) (.bool b) (abs h') := by
@@ -557,45 +592,13 @@ theorem changeKey_sim {eq : V → V → Bool} {cap : Nat} {h h' : IFib K V}
       obtain ⟨r1, habs1⟩ := r.setKey hmem hcell key
       have habs1' : absOf h.nodes (h.cells.setIfInBounds id { c with key := key }) =
           (abs h).set i (some (key, c.val)) := by rw [habs1, hci, hji]; rfl
-      split at he
-      · cases he
-      · split at he
-        · rename_i bcut _
-          split at he
-          · rename_i h2 hcut
-            -- h2 = h1 or cutAndCascade h1
-            have hh2 : Reg cap (rootsIds h2.roots) h2.nodes h2.cells ∧
-                abs h2 = (abs h).set i (some (key, c.val)) ∧ h2.n = h.n := by
-              split at hcut
-              · obtain ⟨q1, q2, q3, _, _⟩ := cutAndCascade_spec (h := { h with cells := _ }) r1 hcut
-                exact ⟨q1, by rw [q2]; exact habs1', q3⟩
-              · cases hcut; exact ⟨r1, habs1', rfl⟩
-            obtain ⟨r2, habs2, hn2⟩ := hh2
-            have hcard : h.n = (Spec.card cap ((abs h).set i (some (key, c.val))) : Int) := by
-              rw [Spec.card_set_some_old _ _ hr habs]; exact inv.card
-            split at he
-            · cases he
-            · split at he
-              · split at he
-                · cases he
-                  refine ⟨⟨r2, by rw [hn2, habs2]; exact hcard⟩, ?_⟩
-                  rw [habs2]; exact .changeKey_ok habs (Or.inl rfl)
-                · split at he
-                  · rename_i roots' hrot
-                    cases he
-                    refine ⟨⟨r2.perm (rootsIds_perm (rotateTo_perm _ _ _ hrot)).symm, ?_⟩, ?_⟩
-                    · show h2.n = ((Spec.card cap (absOf h2.nodes h2.cells) : Nat) : Int)
-                      rw [hn2, show absOf h2.nodes h2.cells = abs h2 from rfl, habs2]; exact hcard
-                    · show Spec.AdmitWeak cmp eq cap (abs h) _ _ (absOf h2.nodes h2.cells)
-                      rw [show absOf h2.nodes h2.cells = abs h2 from rfl, habs2]
-                      exact .changeKey_ok habs (Or.inl rfl)
-                  · cases he
-              · cases he
-              · cases he
-          · cases he
-          · cases he
-        · cases he
-        · cases he
+      obtain ⟨r2, habs2, hn2, hb⟩ := decreaseKey_spec r1 he
+      subst hb
+      have habs2' : abs h' = (abs h).set i (some (key, c.val)) := by rw [habs2]; exact habs1'
+      have hcard : h.n = (Spec.card cap ((abs h).set i (some (key, c.val))) : Int) := by
+        rw [Spec.card_set_some_old _ _ hr habs]; exact inv.card
+      refine ⟨⟨r2, by rw [hn2, habs2']; exact hcard⟩, ?_⟩
+      rw [habs2']; exact .changeKey_ok habs (Or.inl rfl)
     · split at he
       · -- increase key: DeleteIndex, then Insert
         split at he
